@@ -707,6 +707,13 @@ impl PredicatePushdown {
         // Build result: common conditions + simplified OR
         let mut result = common;
 
+        // A branch left with no condition of its own is TRUE once the common
+        // factors hold — `(C AND x) OR C` is just `C` — so the residual OR is
+        // TRUE and must not be replaced by the other branches' leftovers.
+        if remaining_branches.iter().any(|b| b.is_empty()) {
+            return Some(result);
+        }
+
         // Only add the OR if branches have remaining conditions
         let non_empty_branches: Vec<Expr> = remaining_branches
             .into_iter()
